@@ -42,7 +42,8 @@ type ExprOpts struct {
 	PlainStrings  bool // avoid backslash / quote heavy literals (they are C12's business)
 }
 
-var numLits = []string{"0", "1", "2", "3", "10", "0.5", "1.50", "007", "2147483647", "2147483648", "99999999999999999999", "0.000001", "12345678901234567890.123456789", "100", "7", "-1"}
+var numLits = []string{"0", "1", "2", "3", "10", "0.5", "1.50", "007", "2147483647", "2147483648", "99999999999999999999", "0.000001", "12345678901234567890.123456789", "100", "7",
+	"1" + strings.Repeat("0", 64), "0." + strings.Repeat("0", 70) + "1", strings.Repeat("9", 100), strings.Repeat("1234567890", 13) + "." + strings.Repeat("5", 40), strings.Repeat("0", 80) + "7", "-1"}
 var smallInts = []string{"0", "1", "2", "3", "4", "5", "8", "-1", "-2", "10", "30"}
 
 // known context paths of the standard test context (see Context in context.go)
@@ -157,8 +158,9 @@ func (g *exprGen) expr(d int) string {
 		return g.leaf()
 	case 1: // negation
 		return "-" + w() + g.expr(d-1)
-	case 2: // exponent: right operand is always small (result-size amplifier)
-		return g.expr(d-1) + w() + "^" + w() + fw.Pick(g.r, []string{"0", "1", "2", "3", "-1", "-2", "0.5", "10", "(1+1)", "zed"})
+	case 2: // exponent: right operand is always a small integer (result-size amplifier; a fractional exponent costs ~n^3.3 in
+		// the digits of the base — 170 digits take seconds — so those are probed with small bases in C04's directed corpus)
+		return g.expr(d-1) + w() + "^" + w() + fw.Pick(g.r, []string{"0", "1", "2", "3", "-1", "-2", "10", "(1+1)", "zed"})
 	case 3:
 		return g.expr(d-1) + w() + fw.Pick(g.r, []string{"*", "/"}) + w() + g.expr(d-1)
 	case 4:
